@@ -590,15 +590,20 @@ func (d *DBFT[H]) onPreCommit(msg ConsensusPayload[H]) {
 		}
 
 		d.Logger.Info("received PreCommit", zap.Uint("validator", uint(msg.ValidatorIndex())))
-		d.extendTimer(4)
 
 		if !d.hasAllTransactions() {
+			// Can't be verified yet, it's stored (once per validator).
+			d.extendTimer(4)
 			return
 		}
 		preBlock := d.CreatePreBlock()
-		if preBlock != nil {
+		if preBlock == nil {
+			d.extendTimer(4)
+		} else {
 			pub := d.Validators[msg.ValidatorIndex()]
 			if err := preBlock.Verify(pub, msg.GetPreCommit().Data()); err == nil {
+				// Only a PreCommit that is known to be valid may postpone the timeout.
+				d.extendTimer(4)
 				d.checkPreCommit()
 			} else {
 				d.PreCommitPayloads[msg.ValidatorIndex()] = nil
@@ -640,11 +645,15 @@ func (d *DBFT[H]) onCommit(msg ConsensusPayload[H]) {
 		}
 
 		d.Logger.Info("received Commit", zap.Uint("validator", uint(msg.ValidatorIndex())))
-		d.extendTimer(4)
 		header := d.MakeHeader()
-		if header != nil {
+		if header == nil {
+			// Can't be verified yet, it's stored (once per validator).
+			d.extendTimer(4)
+		} else {
 			pub := d.Validators[msg.ValidatorIndex()]
 			if err := header.Verify(pub, msg.GetCommit().Signature()); err == nil {
+				// Only a Commit that is known to be valid may postpone the timeout.
+				d.extendTimer(4)
 				d.checkCommit()
 			} else {
 				d.CommitPayloads[msg.ValidatorIndex()] = nil
